@@ -221,8 +221,15 @@ def ownFetch (id : Nat) (fetch : Nat → OMap) (h : Nat) : OMap := (fetch h).fil
 /-- … and, of those, only the entries `Join` will accept (after the `fix:` commit, finding F29 — `Join`
 refuses the WHOLE fetched log when one entry is refused by the access controller or badly signed, so a
 valid entry whose ancestry holds a refused one, merged by the replicator, was gone after a restart) -/
-def goodFetch (acl : Acl) (id : Nat) (fetch : Nat → OMap) (h : Nat) : OMap :=
+def goodFetch1 (acl : Acl) (id : Nat) (fetch : Nat → OMap) (h : Nat) : OMap :=
   (ownFetch id fetch h).filter (acceptable acl.canAppend)
+
+/-- … and only the entries whose address is the address of their content (after the `fix:` commit,
+finding F46 — the decoder accepts every encoding of an entry and stamps it with the address it was
+asked for: the same signed entry, written again with other bytes, was merged a second time under the
+new address; `Sync` compared the re-encoded hash for announced heads only) -/
+def goodFetch (acl : Acl) (id : Nat) (fetch : Nat → OMap) (h : Nat) : OMap :=
+  (goodFetch1 acl id fetch h).filter (·.hashOk)
 
 /-- `Load(amount)` on a freshly opened store: heads = cached local ++ remote heads, in that order
 (the goroutines are serialised by `muJoining`; the order is an input). -/
